@@ -291,6 +291,61 @@ def rule_i6(F):
     return r
 
 
+def _i7_loop_form(F, b, r):
+    """The duplicate lookup written as a loop over self.types: the comparison of the two TypeIds sits in the loop, and its `equal`
+    outcome can only leave the function with an error (no further condition, no way to the push)."""
+    if not b.mir:
+        r.missing("lookup over self.types by type id in declare_type")
+        return r
+    defs = mir.Defs(b)
+    dom = mir.dominators(b)
+    pushes = [bi for bi, t in mir.calls(b) if hir.last(mir.callee_def(t) or "") == "push" and t["args"] and mir.is_place_op(t["args"][0]) and ".types" in mir.origin_key(b, defs, t["args"][0][1])]
+    oks = mir.ok_exits(b)
+    cmps = []         # (block of the switch, successor taken when the ids are equal, line)
+    for bi, t in mir.calls(b):
+        n = hir.last(mir.callee_def(t) or "")
+        if n not in ("eq", "ne") or "TypeId" not in " ".join(t["f"].get("gargs") or []) + (mir.callee(t) or ""):
+            continue
+        from ..seq import deep_keys
+        sides = []
+        for a in t["args"]:
+            if mir.is_place_op(a):
+                k0 = mir.origin_key(b, defs, a[1])
+                sides.append(("type_id" in k0, any(".types" in k for k in ({k0} | deep_keys(b, defs, a[1][0])))))
+        if not (any(tid and reg for tid, reg in sides) and any(tid and not reg for tid, reg in sides)):
+            continue
+        d = t["dest"][0]
+        for si, blk in enumerate(b.blocks):
+            tt = blk["term"]
+            if tt["k"] == "switch" and mir.is_place_op(tt["o"]) and (tt["o"][1][0] == d or d in {x for dd in defs.whole_defs(tt["o"][1][0]) if dd[2] == "assign" for x in mir.rv_locals(dd[3]["rv"])}):
+                tg = dict(tt["targets"])
+                want = 1 if n == "eq" else 0
+                cmps.append((si, tg.get(want, tt["otherwise"]), t.get("line")))
+    if not cmps:
+        r.missing("lookup over self.types by type id in declare_type")
+        return r
+    loops = mir.natural_loops(b)
+    for si, eq_succ, line in cmps:
+        in_loop = any(si in nodes for _, nodes in loops)
+        reach = mir.reachable_from(b, eq_succ) | {eq_succ}
+        leaks = [x for x in pushes + oks if x in reach]
+        ok_pred = in_loop and not leaks
+        r.inst("lookup predicate", {"line": line, "is_type_id_equality": ok_pred, "form": "loop over self.types"})
+        if not ok_pred:
+            r.bad(b.path, "duplicate lookup predicate", relfile(b.file), line,
+                  "the lookup for an earlier registration does not match every entry with the same TypeId (the predicate is narrowed): the same Rust type can be registered twice, e.g. under the same name in another scope")
+        errs = [x for x in mir.ok_exits(b, "Err") if x in reach]
+        r.inst("hit returns Err", {"ok": bool(errs)})
+        if not errs:
+            r.bad(b.path, "duplicate not refused", relfile(b.file), line, "finding an earlier registration of the same Rust type does not return a RegistrationError")
+        hdrs = [h for h, nodes in loops if si in nodes]
+        before = bool(pushes) and all(any(h in dom[pb] for h in hdrs) for pb in pushes)
+        r.inst("entry added after the lookup", {"pushes": len(pushes)})
+        if not before:
+            r.bad(b.path, "push before lookup", relfile(b.file), b.line, "the new entry is added to self.types before (or without) the duplicate lookup")
+    return r
+
+
 def rule_i7(F):
     """A Rust type is registered at most once: the lookup that guards Rt::declare_type finds ANY earlier registration of the same
     TypeId (its predicate is the type-id equality alone - a conjunction narrows it), a hit returns an error, and only then is the
@@ -308,8 +363,7 @@ def rule_i7(F):
             if any(n.get("k") == "field" and n.get("n") == "type_id" for n in hir.walk(c["args"][0])):
                 look = c
     if look is None:
-        r.missing("lookup over self.types by type id in declare_type")
-        return r
+        return _i7_loop_form(F, b, r)
     cl = hir.strip(look["args"][0])
     body = hir.strip(cl.get("body") or {}) if cl.get("k") == "closure" else {}
 
